@@ -56,7 +56,9 @@ func VxH_C09_grid() {
 		panic(err)
 	}
 	// a minimal user-agent sheet (the full one only slows each path down)
-	D := func(v ...string) []tree.VxDecl { return []tree.VxDecl{{Prop: pr.PDisplay, Value: pr.Display{v[0], v[1]}}} }
+	D := func(v ...string) []tree.VxDecl {
+		return []tree.VxDecl{{Prop: pr.PDisplay, Value: pr.Display{v[0], v[1]}}}
+	}
 	doc.UAStyleSheet = tree.VxSheet(
 		tree.VxRule{Tag: "html", Decls: D("block", "flow")}, tree.VxRule{Tag: "body", Decls: D("block", "flow")},
 		tree.VxRule{Tag: "table", Decls: D("block", "table")},
